@@ -58,6 +58,8 @@ pub struct ProofStub { pub proof: BatchProofStub, pub non_primitives: Vec<NpEntr
 pub struct CommonStub { pub _p: () }
 /// BatchStarkProof::validate (rows, table packing, lane counts: proved in unit meta to be Ok exactly on well-formed metadata)
 pub uninterp spec fn proof_metadata_valid(p: &ProofStub) -> bool;
+/// every declared row count is small enough for the AIR constructors' size arithmetic and the declared ALU reduction is the one the field supports
+pub uninterp spec fn declared_shape_fits_the_air_constructors(p: &ProofStub) -> bool;
 pub struct MetaErr { pub _p: () }
 impl ProofStub { #[verifier::external_body] pub fn validate(&self) -> (r: Result<(), MetaErr>) ensures r is Ok <==> proof_metadata_valid(self) { unimplemented!() } }
 
@@ -205,6 +207,8 @@ pub open spec fn seq_sum_(s: Seq<usize>) -> int decreases s.len() { if s.len() =
     mg.rewrite_re('R6', r'proof\s*\.validate\(\)\s*\.map_err\(\|e\| VerificationError::InvalidProofShape\([^;]*\)\)\?;',
                   'match proof.validate() { Ok(_) => {}, Err(_) => { return Err(VerificationError::InvalidProofShape(errmsg())); } };', min_count=0, flags_dotall=True)
     mg.ensures('malformed_metadata_is_rejected_before_any_air_is_rebuilt_from_it', 'ret is Ok ==> proof_metadata_valid(proof)')
+    # open finding: validate() bounds the declared numbers from below only and the reduction flag is never compared with the field's: rows[Alu] = usize::MAX overflows the AIR's allocation size, a flipped alu_quintic_trinomial panics in create_alu_air
+    mg.ensures('H_the_declared_row_counts_and_the_reduction_flag_are_checked_before_the_airs_are_built', 'ret is Ok ==> declared_shape_fits_the_air_constructors(proof)')
     fns.append(mg)
     # ---- cap split (NO precondition): verify_batch_circuit / verify_batch_circuit_from_extension_opened
     M = 'recursion/src/pcs/mmcs.rs'
